@@ -479,6 +479,63 @@ def run(ctx):
             if rc == 0:
                 ctx.fail("asconsum:check:%s" % flag, "malformed checksum line (%s) but exit status 0" % desc)
             ctx.stat("nontrivial")
+    # ---------------- asconsum: stdin modes, check-file syntax variants, unreadable arguments
+    d = wd()
+    for n in ([0, 1, B, B + 1] if not thorough else [0, 1, 7, 8, 9, B - 1, B, B + 1, 2 * B, 3 * B + 5]):
+        data = content(n, 1)
+        p = os.path.join(d, "s%d.bin" % n)
+        write(p, data)
+        for flag in ("-h", "-a", "-x", "-y"):
+            want = subprocess.run([refsum, flag[1], p], stdout=subprocess.PIPE).stdout.decode().strip()
+            for args in ([summ, flag], [summ, flag, "-"]):
+                rc, o, e = tool_io(args, data, cwd=d)
+                if rc != 0 or o.decode() != "%s  -\n" % want:
+                    ctx.fail("asconsum:stdin:%s" % flag, "%d bytes on stdin: exit %d, printed %r, reference digest %s" % (n, rc, o[:80], want))
+                ctx.stat("nontrivial")
+            good = "%s  %s\n" % (want, p)
+            variants = [("as printed", good, True), ("upper-case digits", "%s  %s\n" % (want.upper(), p), True), ("CRLF line end", good[:-1] + "\r\n", True), ("one space", "%s %s\n" % (want, p), True),
+                        ("blank lines around", "\n\n" + good + "\n", True), ("no final newline", good[:-1], True),
+                        ("last digit changed", "%s%s  %s\n" % (want[:-1], "0" if want[-1] != "0" else "1", p), False), ("first digit changed", "%s%s  %s\n" % ("0" if want[0] != "0" else "1", want[1:], p), False),
+                        ("62 digits", "%s  %s\n" % (want[:62], p), False), ("66 digits", "%s00  %s\n" % (want, p), False), ("tab separator", "%s\t%s\n" % (want, p), False)]
+            for desc, text, ok in variants:
+                # the list on stdin (no file argument), and as a file
+                for via in ("stdin", "file"):
+                    if via == "stdin":
+                        rc, o, e = tool_io([summ, flag, "-c"], text.encode(), cwd=d)
+                    else:
+                        lf = os.path.join(d, "list.txt")
+                        write(lf, text.encode())
+                        rc, o, e = tool([summ, flag, "-c", lf], cwd=d)
+                    said_ok = (p + ": OK") in o.decode().splitlines()
+                    if ok != (rc == 0) or ok != said_ok:
+                        ctx.fail("asconsum:check-syntax:%s" % flag, "checksum list via %s (%s) for an unmodified %d-byte file: exit %d, output %r, expected %s" % (via, desc, n, rc, o[-60:], "OK/0" if ok else "failure"))
+                    ctx.stat("nontrivial")
+            # an entry naming '-' checks standard input
+            lf = os.path.join(d, "list.txt")
+            write(lf, ("%s  -\n" % want).encode())
+            rc, o, e = tool_io([summ, flag, "-c", lf], data, cwd=d)
+            if rc != 0 or o.decode() != "-: OK\n":
+                ctx.fail("asconsum:check-stdin:%s" % flag, "list entry '-' with the right data on stdin: exit %d, output %r" % (rc, o[:60]))
+            if n:
+                rc, o, e = tool_io([summ, flag, "-c", lf], data[:-1] + bytes([data[-1] ^ 1]), cwd=d)
+                if rc == 0 or b"FAILED" not in o:
+                    ctx.fail("asconsum:check-stdin:%s" % flag, "list entry '-' with modified data on stdin: exit %d, output %r" % (rc, o[:60]))
+            rc, o, e = tool_io([summ, flag, "-c"], ("%s  -\n" % want).encode(), cwd=d)
+            if rc == 0:
+                ctx.fail("asconsum:check-stdin:%s" % flag, "list on stdin naming stdin: exit status 0")
+            ctx.stat("nontrivial", 3)
+    # an unreadable argument (a directory) and a missing one fail the exit status, the other files are still printed
+    sub = os.path.join(d, "adir")
+    os.makedirs(sub)
+    p0 = os.path.join(d, "s1.bin")
+    for flag in ("-h", "-a", "-x", "-y"):
+        for bad in (sub, os.path.join(d, "missing.bin")):
+            rc, o, e = tool([summ, flag, p0, bad, p0], cwd=d)
+            want = subprocess.run([refsum, flag[1], p0], stdout=subprocess.PIPE).stdout.decode().strip()
+            if rc == 0 or o.decode().splitlines() != ["%s  %s" % (want, p0)] * 2:
+                ctx.fail("asconsum:unreadable:%s" % flag, "argument %s: exit %d, output %r" % (os.path.basename(bad), rc, o[:200]))
+            ctx.stat("nontrivial")
+
     shutil.rmtree(root, ignore_errors=True)
     ctx.sample("asconcrypt round trip: sizes %s x passwords {1 char, 1023 chars, key file}" % sizes[:8])
     ctx.sample("tamper: every bit of every byte + every truncation length of the encrypted files for small plaintexts; every k-th read/write/open/getrandom failure for encrypt and decrypt (%d fault plans)" % ctx.stats.get("fault_plans", 0))
